@@ -355,8 +355,13 @@ def find_irrelevant_type(etype: tp.Type, types: List[tp.Type],
         # type arguments in order to pass type arguments that are irrelevant
         # with any parameterized type created by this type constructor.
         type_list = [t for t in types if t != etype]
-        return get_irrelevant_parameterized_type(
+        t = get_irrelevant_parameterized_type(
                 t, type_list, type_args_map, factory)
+        # The instantiation of a type constructor that is (indirectly) a
+        # subclass of the given type, or of its own class (star projection),
+        # may still be related to it; such a type is not irrelevant.
+        if t is not None and (t.is_subtype(etype) or etype.is_subtype(t)):
+            return None
     return t
 
 
